@@ -13,6 +13,7 @@ pub mod c11;
 pub mod c12;
 pub mod c14;
 pub mod c15;
+pub mod c16;
 pub mod c17;
 pub mod c18;
 pub mod c19;
@@ -34,6 +35,7 @@ pub fn dispatch(prop: &str, run: Run) -> Option<i32> {
         "C12" => c12::run(run),
         "C14" => c14::run(run),
         "C15" => c15::run(run),
+        "C16" => c16::run(run),
         "C17" => c17::run(run),
         "C18" => c18::run(run),
         "C19" => c19::run(run),
